@@ -71,12 +71,27 @@ def _lists(node, out):
     return out
 
 
+def _ends_with_heading(b) -> bool:
+    """The block's last line is a heading (directly, or as the end of a nested list, quote or alert)."""
+    if not isinstance(b, tuple) or not b:
+        return False
+    if b[0] == "h":
+        return True
+    if b[0] == "list":
+        return bool(b[3]) and bool(b[3][-1]) and _ends_with_heading(b[3][-1][-1])
+    if b[0] in ("quote", "alert"):
+        blocks = b[-1]
+        return bool(blocks) and _ends_with_heading(blocks[-1])
+    return False
+
+
 def _tight_list_with_heading_then_block(node) -> bool:
-    """The input has a tight list with an item in which a heading is directly followed by another block."""
+    """The input has a tight list with an item in which a heading (possibly as the end of a nested list or quote) is directly
+    followed by another block."""
     if isinstance(node, tuple):
         if node and node[0] == "list" and node[4][1]:
             for it in node[3]:
-                if any(b[0] == "h" for b in it[:-1]):
+                if any(_ends_with_heading(b) for b in it[:-1]):
                     return True
         return any(_tight_list_with_heading_then_block(c) for c in node)
     return False
